@@ -211,4 +211,58 @@ theorem services_log_wellformed (cfg : Cfg) (mops : List (Nat × Op)) (j : Nat) 
     WF ((runM cfg mops).insts j).log ∧ inflight ((runM cfg mops).insts j).log = ((runM cfg mops).insts j).running := by
   rw [runM_synced]; exact ⟨log_wellformed cfg _, inflight_is_running cfg _⟩
 
+/-! ## requests made from inside an admitted call
+
+The wrapped service may itself be a caller of the bulkhead it sits behind: its response future makes requests through a
+clone and polls them inside its own poll (`manual onpoll` in the harness). The model has no notion of WHO makes a
+request — a nested request is an `arrive` and a `poll` like any other, placed right after the poll of its parent — so
+`bound` / `trace_bound` / `count_is_inflight_set` (all operation lists) already cover every fan-out. Spelled out: -/
+
+/-- **A nested request needs a permit of its own.** After any history in which every permit is taken (by the calls in
+flight — the parent among them — or handed over to waiters), a request that arrives now and is polled once does not
+start an inner call: "running within the parent's slot" does not exist. (With `max = 1` a call that fans out through
+its own bulkhead can only queue behind itself: it times out, or waits for ever.) -/
+theorem nested_call_needs_own_permit (cfg : Cfg) (ops : List Op) (c : Nat) (sc : Step)
+    (hnew : known (run cfg ops) c = false) (hfull : (run cfg ops).free = 0) (k : Nat) :
+    Ev.innerCall c k ∉ (run cfg (ops ++ [.arrive c sc, .poll c])).log.drop (run cfg ops).log.length := by
+  intro h
+  have hs : run cfg (ops ++ [.arrive c sc, .poll c])
+      = stepS cfg (stepS cfg (run cfg ops) (.arrive c sc)) (.poll c) := by
+    simp [run, List.foldl_append]
+  rw [hs] at h
+  have ha : stepS cfg (run cfg ops) (.arrive c sc)
+      = { run cfg ops with fresh := (run cfg ops).fresh ++ [c], script := (c, sc) :: (run cfg ops).script } := by
+    simp [stepS, hnew]
+  rw [ha] at h
+  let s' : State :=
+    { run cfg ops with fresh := (run cfg ops).fresh ++ [c], script := (c, sc) :: (run cfg ops).script }
+  have h' : Ev.innerCall c k ∈ (stepS cfg s' (.poll c)).log.drop s'.log.length := h
+  obtain ⟨_, _, s1, _, _, _, _, hcase, _⟩ := inner_needs_permit cfg s' (.poll c) c k h'
+  rcases hcase with ⟨_, hfree, _, _⟩ | ⟨hfr, _, _, _⟩
+  · have : s'.free = 0 := hfull
+    omega
+  · have : s'.fresh.contains c = true := by
+      show ((run cfg ops).fresh ++ [c]).contains c = true
+      simp
+    rw [this] at hfr
+    cases hfr
+
+/-- … and whatever it does, the calls in flight stay within `max` (this is `bound` for the extended history; stated
+for the record: the parent `p` is still inside, the nested caller is not counted twice or for free). -/
+theorem nested_call_bound (cfg : Cfg) (ops : List Op) (c : Nat) (sc : Step) :
+    (run cfg (ops ++ [.arrive c sc, .poll c])).running.length ≤ cfg.max :=
+  bound cfg _
+
+/-- Non-vacuity (`max = 1`, `max_wait = 50`): parent 1 is admitted; from inside its poll requests 2 and 3 are made and
+polled: both queue, only the parent is inside; at t = 50 both are rejected, the parent is still inside; with
+`max = 2` the first child gets the second slot and the second child queues. -/
+example :
+    let cfg : Cfg := { max := 1, maxWait := some 50 }
+    let ops : List Op := [.arrive 1 ⟨100, .ok⟩, .poll 1, .arrive 2 ⟨5, .ok⟩, .poll 2, .arrive 3 ⟨0, .ok⟩, .poll 3]
+    (run cfg ops).running = [1] ∧ (run cfg ops).queue = [2, 3] ∧ (run cfg ops).log = [.innerCall 1 0] ∧
+    (run cfg (ops ++ [.adv 50, .poll 2, .poll 3])).log = [.innerCall 1 0, .result 2 .timeout, .result 3 .timeout] ∧
+    (run cfg (ops ++ [.adv 50, .poll 2, .poll 3])).running = [1] ∧
+    (run { max := 2, maxWait := some 50 } ops).running = [1, 2] ∧
+    (run { max := 2, maxWait := some 50 } ops).queue = [3] := by decide
+
 end TR.Props.C01
